@@ -112,7 +112,7 @@ func BuildReleaseControlInfo(release *v1beta1.BatchRelease) string {
 // For examples:
 // * Given stableReplicas 1,  allReplicas 3,   return "33%";
 // * Given stableReplicas 98, allReplicas 99,  return "97%";
-// * Given stableReplicas 1,  allReplicas 101, return "1%";
+// * Given stableReplicas 1,  allReplicas 101, return 1 (no percentage restores exactly 1 stable pod of 101);
 func ParseIntegerAsPercentageIfPossible(stableReplicas, allReplicas int32, canaryReplicas *intstr.IntOrString) intstr.IntOrString {
 	if stableReplicas >= allReplicas {
 		return intstr.FromString("100%")
@@ -126,9 +126,10 @@ func ParseIntegerAsPercentageIfPossible(stableReplicas, allReplicas int32, canar
 	percent := intstr.FromString(fmt.Sprintf("%v%%", pValue))
 	restoredStableReplicas, _ := intstr.GetScaledValueFromIntOrPercent(&percent, int(allReplicas), true)
 	// restoredStableReplicas == 0 is un-tolerated if user-defined canaryReplicas is not 100%.
-	// we must make sure that at least one canary pod is created.
+	// No percentage can express so few stable pods: "1%" would keep more stable pods than the batch
+	// plans, so the batch could never become ready. Fall back to the exact number.
 	if restoredStableReplicas <= 0 && canaryReplicas.StrVal != "100%" {
-		return intstr.FromString("1%")
+		return intstr.FromInt(int(stableReplicas))
 	}
 
 	return percent
